@@ -18,6 +18,7 @@ type Clause struct {
 }
 
 type LoopSpec struct {
+	Entry      []Clause // checked once on loop entry (not assumed, not preserved)
 	Invariants []Clause
 	Decreases  *Clause
 }
@@ -36,6 +37,9 @@ type Contract struct {
 	ReadOnly  bool // no heap effect; result unconstrained beyond ensures
 	Trusted   bool // contract is assumed, body not verified (externals, or internal functions marked so)
 	NoReturn  bool // never returns normally
+	Partial   bool // only loop invariants and call-site/load assertions are checked; callee preconditions and safety are assumed
+	TrustedFrame bool // the assigns clause is assumed by callers but not checked against the body
+	TEnsures  []Clause // postconditions assumed by callers but not checked against the body (listed as assumptions)
 	NoSafety  bool // do not generate safe.* obligations (function verified for functional clauses only)
 	Axioms    []Clause // trusted global facts about a pure external function (quantified with gforall)
 	Lemmas    []Clause // assert-style lemmas checked at function entry (pure facts over params)
@@ -93,7 +97,7 @@ func NewContractSet() *ContractSet {
 }
 
 var clauseHead = regexp.MustCompile(`^(requires|ensures|lemma|axiom|defines)(\[[A-Z0-9, ]+\])?\s+(.*)$`)
-var loopHead = regexp.MustCompile(`^loop\s+(\d+)\s+(invariant|decreases)(\[[A-Z0-9, ]+\])?\s+(.*)$`)
+var loopHead = regexp.MustCompile(`^loop\s+(\d+)\s+(invariant|decreases|entry)(\[[A-Z0-9, ]+\])?\s+(.*)$`)
 var specHead = regexp.MustCompile(`^specfn\s+(\w+)\s*\((.*)\)\s*(\S.*)$`)
 
 func parseProps(s string) []string {
@@ -217,6 +221,13 @@ func (cs *ContractSet) ParseFile(path, pkgPath string, ext bool) error {
 			cur.NoReturn = true
 		case line == "nosafety":
 			cur.NoSafety = true
+		case line == "partial":
+			cur.Partial = true
+			cur.NoSafety = true
+		case line == "trustedframe":
+			cur.TrustedFrame = true
+		case strings.HasPrefix(line, "tensures "):
+			cur.TEnsures = append(cur.TEnsures, Clause{Text: strings.TrimSpace(line[9:]), File: path, Line: ln})
 		case line == "nilok" || line == "nopanic":
 			if cur.Ghost == nil {
 				cur.Ghost = map[string]string{}
@@ -282,9 +293,12 @@ func (cs *ContractSet) ParseFile(path, pkgPath string, ext bool) error {
 				cur.Loops[k] = ls
 			}
 			cl := Clause{Text: m[4], Props: parseProps(m[3]), File: path, Line: ln}
-			if m[2] == "invariant" {
+			switch m[2] {
+			case "invariant":
 				ls.Invariants = append(ls.Invariants, cl)
-			} else {
+			case "entry":
+				ls.Entry = append(ls.Entry, cl)
+			default:
 				ls.Decreases = &cl
 			}
 		case clauseHead.MatchString(line):
